@@ -612,7 +612,7 @@ func TestVerif_C17(t *testing.T) {
 		lists    [][]int
 		hdrTO    bool
 	}
-	short := [][]int{{}, {0}, {0, 1}, {2, 1, 0}}
+	short := [][]int{{}, {0, 1}, {2, 1, 0}}
 	fams := []fam{
 		{"get", 0, 0, false, c17lists, false},
 		{"post-body", 1, 0, false, c17lists, false},
